@@ -123,6 +123,25 @@ def resend_cases(rng, n):
     return out
 
 
+def rawcmd_cases(rng, n):
+    """command-type packets whose command the caller has already serialised into Payload (CommandPacket nil)"""
+    out = []
+    for _ in range(n):
+        seq = []
+        for _ in range(rng.choice([1, 2, 3])):
+            p = rand_pkt(rng, 60)
+            for _ in range(50):
+                if "cmd" in p:
+                    break
+                p = rand_pkt(rng, 60)
+            if "cmd" in p:
+                p = dict(p, rawcmd=True)
+            seq.append(p)
+        seq.append(rand_pkt(rng, 30))
+        out.append({"mode": "pk", "pkts": seq, "cuts": rng.choice([[], [1] * 80, [2, 3, 5, 7]])})
+    return out
+
+
 def duplex_cases(rng, n):
     """full-duplex use of one processor: WritePacket(A) and the ReadPackets of B1.. on the same StreamProcessor, one direction
     parked at a transport call while the other runs (compressed packets on both sides: they use the scratch buffers)"""
@@ -314,6 +333,7 @@ def run(ctx, only_cases=None):
         cases += concurrent_writer_cases(ctx.rng, 200 if thorough else 24)
         cases += duplex_cases(ctx.rng, 300 if thorough else 40)
         cases += resend_cases(ctx.rng, 200 if thorough else 30)
+        cases += rawcmd_cases(ctx.rng, 150 if thorough else 25)
     outs = vlib.run_harness(binary, cases, timeout=900)
     wires = [o["wire"] for c, o in zip(cases, outs) if c["mode"] in ("pk", "ws") and o.get("wire")][:: (2 if thorough else 6)]
     raw = raw_mutations(ctx, wires, 12 if thorough else 6) if only_cases is None else []
